@@ -48,6 +48,9 @@ def handler_roots(F):
 
 def run(ctx, rep):
     F = ctx.F
+    # "equals what the CLI computes": the server hands the calculation every parsed line, as the CLI does (shared with C17-R12)
+    import rules.c02 as _c02
+    _c02.frontends_hand_over_everything(F, rep, "R4", crates=("cgt_mcp",))
     tools, roots = handler_roots(F)
     rep.count("tools", len(tools))
     rep.count("handler_roots", len(roots))
